@@ -311,4 +311,44 @@ theorem unowned_cells_never_change (ops : List Op) : ∀ (h : H), Sep h → ∀ 
     simp only [run, List.foldl_cons] at h2 ⊢
     rw [h2, h1]
 
+/-- instance `j`'s slot `p` holds a cell with the content that `a` had in `h0` -/
+def CopiedTo (h0 : H) (j p a : Nat) (hh : H) : Prop :=
+  ∃ b, hh.slot j p = some b ∧ b < hh.next ∧ hh.cells b = some (content h0 a)
+
+theorem copyStep_establishes (h0 : H) (i j : Nat) (hh : H) (p a : Nat) (hsl : h0.slot i p = some a) :
+    CopiedTo h0 j p a (copyStep h0 i j hh p) := by
+  unfold copyStep; rw [hsl]
+  exact ⟨hh.next, by simp [alloc], by simp [alloc], by simp [alloc]⟩
+
+theorem copyStep_keeps (h0 : H) (i j : Nat) (hh : H) (p a p' : Nat) (hsl : h0.slot i p = some a)
+    (hc : CopiedTo h0 j p a hh) : CopiedTo h0 j p a (copyStep h0 i j hh p') := by
+  by_cases hpp : p' = p
+  · subst hpp; exact copyStep_establishes h0 i j hh p' a hsl
+  · obtain ⟨b, h1, h2, h3⟩ := hc
+    obtain ⟨a1, a2, _⟩ := copyStep_old h0 i j hh p'
+    refine ⟨b, ?_, Nat.lt_of_lt_of_le h2 a1, by rw [a2 b h2]; exact h3⟩
+    unfold copyStep
+    cases h0.slot i p' with
+    | none => exact h1
+    | some a' => simp [alloc, Ne.symm hpp, h1]
+
+theorem copy_fold_faithful (h0 : H) (i j p a : Nat) (hsl : h0.slot i p = some a) : ∀ (ps : List Nat) (hh : H),
+    (CopiedTo h0 j p a hh ∨ p ∈ ps) → CopiedTo h0 j p a (ps.foldl (copyStep h0 i j) hh) := by
+  intro ps
+  induction ps with
+  | nil =>
+    intro hh h
+    rcases h with h | h
+    · exact h
+    · cases h
+  | cons q ps ih =>
+    intro hh h
+    simp only [List.foldl_cons]
+    apply ih
+    rcases h with h | h
+    · exact Or.inl (copyStep_keeps h0 i j hh p a q hsl h)
+    · rcases List.mem_cons.mp h with rfl | h
+      · exact Or.inl (copyStep_establishes h0 i j hh p a hsl)
+      · exact Or.inr h
+
 end Hmf.Heap
